@@ -156,6 +156,7 @@ type hist struct {
 	units  []hUnit
 	ext    map[string][]string // f32/f64/tz/civil assoc entries
 	bias   int64               // large-offset histories: every offset past a file's head FDE is moved up by this much
+	pad    bool                // ROWS events carry their bitmaps with the padding bits set, as real masters write them
 	empty  bool                // the replica starts at ("", 4): "oldest binlog"; labels carry "" until the first ROTATE
 }
 
@@ -178,6 +179,9 @@ func (h *hist) line(p string, extra ...string) string {
 	s := fmt.Sprintf("hist cfg=%s p=%s tables=%s units=%s", h.cfg, p, strings.Join(ts, ";"), strings.Join(us, ";"))
 	if h.bias != 0 {
 		s += fmt.Sprintf(" bias=%d", h.bias)
+	}
+	if h.pad {
+		s += " pad=1"
 	}
 	for _, k := range []string{"f32", "f64", "tz", "civil"} {
 		if len(h.ext[k]) > 0 {
@@ -581,6 +585,7 @@ func genHistory(r *RNG, o histOpts, cfg string) *hist {
 		h.bias = []int64{1<<31 - 200, 1<<31 - 20, 1 << 31, 3 << 30, 1<<32 - 1<<21, int64(r.Intn(1 << 31))}[r.Intn(6)]
 	}
 	h.empty = r.Chance(1, 6)
+	h.pad = r.Bool()
 	nu := r.Range(1, o.maxUnits)
 	ts := uint32(1600000000 + r.Intn(1000))
 	fileNo := 1
